@@ -3,7 +3,7 @@
 cd /verif
 python3 tools/seedtest.py --prepare
 for d in ${@:-/tmp/wt-C*/seed/[0-9]}; do
-  id=$(echo $d | sed 's|/tmp/wt-\(C[0-9]*\)/seed/\([0-9]\)|\1-\2|')
+  id=$(echo $d | sed 's|/tmp/wt-\(C[0-9]*\)/seed/\([0-9]*\)|\1-\2|')
   python3 tools/seedtest.py $d $id $SEEDTEST_ARGS 2>&1 | tail -2
 done
 echo BATCH-DONE
